@@ -160,7 +160,8 @@ class AioImpl:
         self.events = []
         return out
 
-    async def step(self, o):
+    def act(self, o):
+        """the public call itself (synchronous); returns the observation of its result"""
         k = o[0]
         sch = self.sch
         try:
@@ -209,15 +210,21 @@ class AioImpl:
                 res = ("job", jid)
             elif k == "AOP":
                 res = self.do_aop(o[1])
-            elif k == "ARUN":
+            else:
+                raise ValueError(o)
+        except Exception as e:  # noqa
+            res = ("err", core.exc_name(e))
+        return res
+
+    async def step(self, o, res=None):
+        if res is None:
+            if o[0] == "ARUN":
                 delta = o[1] - self.loop.now_us()
                 if delta > 0:
                     await asyncio.sleep(delta / 1e6)
                 res = ("none",)
             else:
-                raise ValueError(o)
-        except Exception as e:  # noqa
-            res = ("err", core.exc_name(e))
+                res = self.act(o)
         ok = await vloop.settle(self.loop)
         if not ok:
             res = ("err", "Other:NoQuiescence")
@@ -232,8 +239,11 @@ class AioImpl:
         self.loop = loop
         loop.set_exception_handler(lambda l, ctx: self.loop_errors.append(str(ctx.get("message")) + " " + repr(ctx.get("exception"))))
         ops = [init]
+        # a quarter of the histories: the scheduler is built for an explicit loop that is not running yet, and the
+        # first scheduling call is made before the loop runs (its supervising task must wait on THAT loop)
+        preloop = (init[2] // 7) % 4 == 0
 
-        async def main():
+        def build(**extra):
             if self.user_logger:
                 self.logger = logging.getLogger("verif.aio.%d" % id(self))
             else:
@@ -242,17 +252,38 @@ class AioImpl:
             self.logger.handlers = []          # configured after the scheduler was built
             self.logger.setLevel(logging.DEBUG)
             from scheduler.asyncio import Scheduler as AioScheduler
-            kw = dict(tzinfo=self.tz)
+            kw = dict(tzinfo=self.tz, **extra)
             if self.user_logger:
                 kw["logger"] = self.logger
             self.sch = AioScheduler(**kw)
             self.logger.handlers = [core._CountingHandler(self.on_log)]
             self.lines.append(s_atop(init))
             self.blocks.append(self.observe(("none",)))
-            for o in history[1:]:
+
+        rest = list(history[1:])
+        agen = gen_fn(self).__aiter__() if gen_fn is not None else None
+        if preloop:
+            build(loop=loop)
+            first = None
+            if rest:
+                first = rest.pop(0)
+            elif agen is not None:
+                try:
+                    first = loop.run_until_complete(agen.__anext__())
+                    ops.append(first)
+                except StopAsyncIteration:
+                    agen = None
+            if first is not None:
+                res = self.act(first) if first[0] in ("ASCHED", "AONCE") else None     # no loop is running here
+                loop.run_until_complete(self.step(first, res))
+
+        async def main():
+            if not preloop:
+                build()
+            for o in rest:
                 await self.step(o)
-            if gen_fn is not None:
-                async for o in gen_fn(self):
+            if agen is not None:
+                async for o in agen:
                     ops.append(o)
                     await self.step(o)
             # leave no task behind
